@@ -13,8 +13,8 @@ from harness.trace import Run, result_str
 
 PROP = "C17"
 THEOREMS = ["Lbfgsb.C17.scaler_called_once", "Lbfgsb.C17.scaler_sees_unscaled", "Lbfgsb.C17.target_on_unscaled",
-            "Lbfgsb.C17.scaled_values", "Lbfgsb.C17.scaler_equivalence", "Lbfgsb.C17.unit_scaling_pos"]
-MODULES = ["LbfgsbVerif.Props.C17"]
+            "Lbfgsb.C17.scaled_values", "Lbfgsb.C17.scaler_equivalence", "Lbfgsb.C17.unit_scaling_pos", "Lbfgsb.C17.fd_scaling_linear"]
+MODULES = ["LbfgsbVerif.Props.C17", "LbfgsbVerif.Props.C17FD"]
 
 
 def evaluate(case: Dict[str, Any]) -> Dict[str, Any]:
